@@ -148,3 +148,150 @@ Qed.
 
 Lemma count_oct_digits_0 : forall fuel acc, count_oct_digits fuel 0 acc = acc.
 Proof. intros [|fuel] acc; reflexivity. Qed.
+
+(* ---- the integer conversions *)
+
+Lemma signed_result_iso : forall d v,
+  (d_conv d = Cd \/ d_conv d = Ci) ->
+  let o := opts_of d v in
+  let value := to_signed (len_bits (d_len d)) (a_int v) in
+  print_digits_result (Z.to_N (Z.abs value)) (value <? 0) 10 (minimum_width o) (prec_or_1 o) (padding_of o)
+      (left_justify o) (always_sign o) (plus_becomes_space o) false []
+  = iso_int d v.
+Proof.
+  intros d v Hc o value.
+  destruct (opts_of_fields d v) as [F1 [F2 [F3 [F4 [F5 [F6 [F7 [F8 F9]]]]]]]]. fold o in F1, F2, F3, F4, F5, F6, F7, F8, F9.
+  unfold print_digits_result, padding_of, prec_or_1. rewrite F1, F2, F3, F5, F7, F8.
+  rewrite (assemble_eq _ [] _ _ _ (has FZero d && negb (is_some (eff_prec d v)))) by reflexivity.
+  unfold iso_int. fold value.
+  destruct Hc as [Hc | Hc]; rewrite Hc; cbv zeta; cbn [radix_of andb app].
+  all: unfold sign_chars, zeros, blanks, zlen, len, is_some; reflexivity.
+Qed.
+
+
+Lemma mag_eqb : forall z, N.eqb (Z.to_N (Z.abs z)) 0 = (z =? 0).
+Proof. intros z. destruct (z =? 0) eqn:E; [apply N.eqb_eq | apply N.eqb_neq]; lia. Qed.
+
+Lemma hex_result_iso : forall d v (upper : bool),
+  d_conv d = (if upper then CX else Cx) ->
+  let o := opts_of d v in
+  let value := to_unsigned (len_bits (d_len d)) (a_int v) in
+  print_digits_result (Z.to_N (Z.abs value)) false 16 (minimum_width o) (prec_or_1 o) (padding_of o)
+      (left_justify o) false false upper
+      (if negb (value =? 0) && alt_conversion o then (if upper then [48; 88]%N else [48; 120]%N) else [])
+  = iso_int d v.
+Proof.
+  intros d v upper Hc o value.
+  destruct (opts_of_fields d v) as [F1 [F2 [F3 [F4 [F5 [F6 [F7 [F8 F9]]]]]]]]. fold o in F1, F2, F3, F4, F5, F6, F7, F8, F9.
+  unfold print_digits_result, padding_of, prec_or_1. rewrite F1, F4, F5, F7, F8.
+  rewrite (assemble_eq _ _ _ _ _ (has FZero d && negb (is_some (eff_prec d v)))) by reflexivity.
+  unfold iso_int. fold value. rewrite Hc. rewrite !mag_eqb.
+  destruct upper; cbv zeta; cbn [radix_of andb app];
+    unfold sign_chars, zeros, blanks, zlen, len, is_some;
+    destruct (value =? 0), (has FHash d); cbn [negb andb app]; reflexivity.
+Qed.
+
+
+Lemma zeros_S : forall z, 1 <= z -> zeros z = 48%N :: zeros (z - 1).
+Proof. intros z Hz. unfold zeros. replace (Z.to_nat z) with (S (Z.to_nat (z - 1))) by lia. reflexivity. Qed.
+Lemma zeros_nonpos : forall z, z <= 0 -> zeros z = [].
+Proof. intros z Hz. unfold zeros. replace (Z.to_nat z) with O by lia. reflexivity. Qed.
+
+Lemma starts48_cons : forall (c : N) (r : list N),
+  match c :: r with 48%N :: _ => true | _ => false end = N.eqb c 48.
+Proof.
+  intros [|p] r; [reflexivity|].
+  destruct (N.eqb_spec (N.pos p) 48) as [He|Hne]; [inversion He; reflexivity|].
+  repeat (destruct p as [p|p|]; try reflexivity; try congruence).
+Qed.
+
+Lemma octal_body : forall (mag : N) (p : Z) (alt : bool), 0 <= p -> (mag < 2 ^ 64)%N ->
+  let nd := count_oct_digits 65 mag 0 in
+  let p' := if alt then (if p <=? nd then nd + 1 else p) else p in
+  let ds' := if N.eqb mag 0 && (p' =? 0) then [] else digits 8 false mag in
+  let ds := if N.eqb mag 0 && (p =? 0) then [] else digits 8 false mag in
+  let body0 := zeros (p - len ds) ++ ds in
+  zeros (p' - len ds') ++ ds'
+  = (if alt && negb (match body0 with 48%N :: _ => true | _ => false end) then 48%N :: body0 else body0).
+Proof.
+  intros mag p alt Hp Hm. cbv zeta. destruct alt; cbn [andb]; [|reflexivity].
+  destruct (N.eqb mag 0) eqn:E0.
+  - apply N.eqb_eq in E0. subst mag. rewrite count_oct_digits_0. cbn [andb].
+    rewrite (digits_zero 8 false) by lia.
+    destruct (p =? 0) eqn:Ep.
+    { assert (p = 0) by lia. subst p. reflexivity. }
+    assert (Hle : (p <=? 0) = false) by lia. rewrite Hle. rewrite Ep.
+    change (len [48%N]) with 1.
+    destruct (p - 1 =? 0) eqn:E1.
+    { assert (p = 1) by lia. subst p. reflexivity. }
+    rewrite (zeros_S (p - 1)) by lia. cbn [app negb]. reflexivity.
+  - apply N.eqb_neq in E0. cbn [andb].
+    rewrite count_oct_digits_spec by (try assumption; assert (N.log2 mag < 64)%N by (apply N.log2_lt_pow2; lia); lia).
+    destruct (digits_head_nonzero 8 false mag ltac:(lia) ltac:(lia) E0) as [c [r [Hd Hc]]].
+    fold (len (digits 8 false mag)). rewrite Z.add_0_l.
+    destruct (p <=? len (digits 8 false mag)) eqn:Ep.
+    + replace (len (digits 8 false mag) + 1 - len (digits 8 false mag)) with 1 by lia.
+      rewrite (zeros_nonpos (p - len (digits 8 false mag))) by lia.
+      rewrite Hd. cbn [app]. rewrite (starts48_cons c r). apply N.eqb_neq in Hc. rewrite Hc. reflexivity.
+    + rewrite (zeros_S (p - len (digits 8 false mag))) by lia. cbn [app negb]. reflexivity.
+Qed.
+
+Lemma to_unsigned_range : forall bits z, 0 < bits <= 64 -> 0 <= to_unsigned bits z < 2 ^ 64.
+Proof.
+  intros bits z Hb. unfold to_unsigned.
+  assert (0 < 2 ^ bits) by (apply Z.pow_pos_nonneg; lia).
+  assert (2 ^ bits <= 2 ^ 64) by (apply Z.pow_le_mono_r; lia).
+  pose proof (Z.mod_pos_bound z (2 ^ bits) ltac:(lia)). lia.
+Qed.
+
+Lemma len_bits_range : forall l, 0 < len_bits l <= 64.
+Proof. intros l; destruct l; cbn; lia. Qed.
+
+Lemma unsigned_dec_result_iso : forall d v (pre : list N),
+  d_conv d = Cu ->
+  let o := opts_of d v in
+  let value := to_unsigned (len_bits (d_len d)) (a_int v) in
+  print_digits_result (Z.to_N (Z.abs value)) false 10 (minimum_width o) (prec_or_1 o) (padding_of o)
+      (left_justify o) false false false []
+  = iso_int d v.
+Proof.
+  intros d v pre Hc o value.
+  destruct (opts_of_fields d v) as [F1 [F2 [F3 [F4 [F5 [F6 [F7 [F8 F9]]]]]]]]. fold o in F1, F2, F3, F4, F5, F6, F7, F8, F9.
+  unfold print_digits_result, padding_of, prec_or_1. rewrite F1, F5, F7, F8.
+  rewrite (assemble_eq _ [] _ _ _ (has FZero d && negb (is_some (eff_prec d v)))) by reflexivity.
+  unfold iso_int. fold value. rewrite Hc. cbv zeta; cbn [radix_of andb app].
+  unfold sign_chars, zeros, blanks, zlen, len, is_some; reflexivity.
+Qed.
+
+Lemma eff_prec_nonneg : forall d v p, eff_prec d v = Some p -> 0 <= p.
+Proof.
+  intros d v p H. unfold eff_prec in H. destruct (d_prec d); try discriminate; inversion H; subst; try lia.
+  destruct (a_prec v <? 0) eqn:E; [discriminate|]. inversion H1. lia.
+Qed.
+
+Lemma octal_result_iso : forall d v,
+  d_conv d = Co ->
+  let o := opts_of d v in
+  let value := to_unsigned (len_bits (d_len d)) (a_int v) in
+  print_digits_result (Z.to_N (Z.abs value)) false 8 (minimum_width o) (octal_precision o value) (padding_of o)
+      (left_justify o) false false false []
+  = iso_int d v.
+Proof.
+  intros d v Hc o value.
+  pose proof (to_unsigned_range (len_bits (d_len d)) (a_int v) (len_bits_range _)) as Hv. fold value in Hv.
+  assert (Hva : Z.to_N value = Z.to_N (Z.abs value)) by (clearbody value; f_equal; lia).
+  assert (Hm : (Z.to_N (Z.abs value) < 2 ^ 64)%N).
+  { clearbody value. apply N2Z.inj_lt. rewrite Z2N.id by lia. change (Z.of_N (2 ^ 64)) with (2 ^ 64). lia. }
+  set (p := match eff_prec d v with Some p => p | None => 1 end).
+  assert (Hp : 0 <= p).
+  { subst p. destruct (eff_prec d v) eqn:E; [eapply eff_prec_nonneg; eassumption | clear; lia]. }
+  pose proof (octal_body (Z.to_N (Z.abs value)) p (has FHash d) Hp Hm) as Hb. cbv zeta in Hb.
+  unfold zeros, len in Hb.
+  destruct (opts_of_fields d v) as [F1 [F2 [F3 [F4 [F5 [F6 [F7 [F8 F9]]]]]]]]. fold o in F1, F2, F3, F4, F5, F6, F7, F8, F9.
+  unfold print_digits_result, padding_of, octal_precision, prec_or_1. rewrite F1, F4, F5, F7, F8.
+  rewrite Hva. fold p.
+  rewrite (assemble_eq _ [] _ _ _ (has FZero d && negb (is_some (eff_prec d v)))) by reflexivity.
+  unfold zlen. rewrite Hb. clear Hb.
+  unfold iso_int. fold value. rewrite Hc. cbv zeta; cbn [radix_of andb app]. fold p.
+  unfold sign_chars, zeros, blanks, zlen, len, is_some; reflexivity.
+Qed.
